@@ -92,7 +92,11 @@ class Recorder:
             self.known_hits[kid] = self.known_hits.get(kid, 0) + 1
             self._known_case.append(kid)
             return False
-        self._fails.append((sub, detail() if callable(detail) else detail))
+        try:
+            d = detail() if callable(detail) else detail
+        except Exception as ex:     # e.g. timestamps beyond the int -> str conversion limit
+            d = '<detail could not be formatted: %r>' % (ex,)
+        self._fails.append((sub, d))
         return False
 
     def is_listed(self, sub, trigger):
@@ -172,6 +176,11 @@ def run_one(mod, case, rec, limit=None):
         rec.note('case abandoned after %d s (inconclusive)' % (limit or CASE_LIMIT_S))
         rec._fails = []
         nt = False
+    except MemoryError:
+        import gc
+        gc.collect()
+        rec.note('case abandoned: memory cap reached outside a guarded call (inconclusive)')
+        nt = False
     finally:
         if use_alarm:
             signal.alarm(0)
@@ -179,6 +188,23 @@ def run_one(mod, case, rec, limit=None):
     if isinstance(nt, tuple):
         nt, sample = nt
     return rec.end(bool(nt), sample)
+
+
+SHARD_MEM_GB = float(os.environ.get('DXVERIF_SHARD_MEM_GB', '3'))
+
+
+def _limit_memory():
+    """Cap the data segment of a shard process: code under test that allocates without bound gets a MemoryError
+    (an answer the oracles can judge) instead of taking the machine down with it."""
+    try:
+        import resource
+        lim = int(SHARD_MEM_GB * (1 << 30))
+        soft, hard = resource.getrlimit(resource.RLIMIT_DATA)
+        if hard != resource.RLIM_INFINITY:
+            lim = min(lim, hard)
+        resource.setrlimit(resource.RLIMIT_DATA, (lim, hard))
+    except Exception:
+        pass
 
 
 def derive_seed(seed, prop, shard):
@@ -189,6 +215,7 @@ def derive_seed(seed, prop, shard):
 def _shard(args):
     prop, tier, seed, shard, n_cases, budget_s = args
     try:
+        _limit_memory()
         _import_target()
         import hypothesis
         from hypothesis import HealthCheck, Phase, given, settings
@@ -221,7 +248,14 @@ def _shard(args):
                     rec.skipped_budget += 1
                     return
                 run_one(mod, case, rec)
-            prop_test()
+            try:
+                prop_test()
+            except MemoryError:
+                # the code under test exhausted the shard's memory cap and the error surfaced outside a case
+                # (inside the generator engine): what was recorded so far stands, the rest of the shard is inconclusive
+                import gc
+                gc.collect()
+                rec.note('shard stopped early: memory cap reached (remaining cases inconclusive)')
         extra = getattr(mod, 'extra', None)
         if extra is not None:
             extra(tier, rec, derive_seed(seed, prop, shard), shard, NSHARDS)
@@ -346,8 +380,16 @@ def main(argv):
     per = (n_cases + NSHARDS - 1) // NSHARDS if n_cases else 0
     jobs = [(prop, tier, seed, i, per, budget_s) for i in range(NSHARDS)]
     ctx = multiprocessing.get_context('fork')
-    with ctx.Pool(NSHARDS) as pool:
-        results = pool.map(_shard, jobs, chunksize=1)
+    # not multiprocessing.Pool: it waits forever for a worker that was killed (e.g. by the kernel's OOM killer when
+    # the code under test allocates without bound); the executor reports a broken pool instead
+    from concurrent.futures import ProcessPoolExecutor
+    from concurrent.futures.process import BrokenProcessPool
+    try:
+        with ProcessPoolExecutor(max_workers=NSHARDS, mp_context=ctx) as pool:
+            results = list(pool.map(_shard, jobs))
+    except BrokenProcessPool:
+        print('harness error: a shard process died (killed by the system?); no verdict')
+        return 2
     errs = [r[1] for r in results if r[0] != 'ok']
     if errs:
         print('harness error in a shard:\n' + errs[0])
